@@ -125,6 +125,9 @@ class ListSpec(hist.Spec):
             ops.append(('touch', n))
         ops.append(('touch_bad', self.names[1]))
         # writes through the proxy of the child (first repetition, created when absent) and a copy addressed by long name
+        # a repetition replaced by another repetition of the same parent (the element moves)
+        for i, j in ((1, 0), (0, 1), (2, 0), (0, 2)):
+            ops.append(('setidx_own', self.names[1], i, j))
         for n in self.names:
             ops.append(('set_via_proxy', n, self.values[n][0]))
             if n in self.longnames:
@@ -167,6 +170,9 @@ class ListSpec(hist.Spec):
             setattr(r, op[1], getattr(d, op[1]))
         elif k == 'copy_el':
             setattr(r, op[1], getattr(d, op[1])[0])
+        elif k == 'setidx_own':
+            reps = getattr(r, op[1])
+            reps[op[2]] = reps[op[3]]           # IndexError when either repetition is absent
         elif k == 'set_via_proxy':
             getattr(r, op[1].lower()).value = op[2]
         elif k == 'copy_el_long':
@@ -262,6 +268,14 @@ class ListSpec(hist.Spec):
             if op[1] >= len(e):
                 return model, 'raise'
             del e[op[1]]
+            return m, 'ok'
+        if k == 'setidx_own':
+            pi, pj = self._nth(e, op[1], op[2]), self._nth(e, op[1], op[3])
+            if pi is None or pj is None:
+                return model, 'raise'
+            if pi != pj:
+                e[pi] = e[pj]
+                del e[pj]
             return m, 'ok'
         if k in ('copy', 'copy_el', 'copy_el_long'):
             p = self._nth(m['donor'], op[1], 0)
